@@ -1,13 +1,13 @@
 #!/bin/bash
-# usage: confirm_mutant.sh <worktree> <seeded dir> <demo test filter>
+# usage: confirm_mutant.sh <worktree> <seeded dir> <demo test filter> [cargo test target args, default "-p ord --lib"]
 # confirms: demo fails with the change, the stable baseline passes with it, demo passes without it
-WT=$1; SD=$2; FILTER=$3
+WT=$1; SD=$2; FILTER=$3; TARGET=${4:-"-p ord --lib"}
 export CARGO_TARGET_DIR=$WT/target
 cd $WT
 {
 echo "== worktree state"; git status --short | head
 echo "== demo WITH change (expect failure)"
-cargo test --offline -p ord --lib "$FILTER" 2>&1 | grep -E "^test |^test result" | head -8
+cargo test --offline $TARGET "$FILTER" 2>&1 | grep -E "^test |^test result" | head -8
 echo "== full suite WITH change"
 # resume_suspended can hang forever on a loaded machine: it is run on its own, under a timeout
 timeout 7200 cargo test --workspace --no-fail-fast --offline -- --skip resume_suspended > $WT/suite_confirm.log 2>&1
@@ -29,7 +29,7 @@ bad=[n for n in sorted(sp) if status(n)!='ok']
 print("stable_pass",len(sp),"not ok",len(bad),bad[:5])
 PY
 echo "== demo WITHOUT change (expect pass)"
-git apply -R $SD/patch.diff && cargo test --offline -p ord --lib "$FILTER" 2>&1 | grep -E "^test |^test result" | head -8
+git apply -R $SD/patch.diff && cargo test --offline $TARGET "$FILTER" 2>&1 | grep -E "^test |^test result" | head -8
 git apply $SD/patch.diff
 } > $SD/confirm.log 2>&1
 echo finished $SD
